@@ -154,6 +154,9 @@ func TestZZVerifC01(t *testing.T) {
 		if li%4 == 1 {
 			w = gen.CatalogWeights()
 		}
+		if li%8 == 2 {
+			w = gen.VIPWeights()
+		}
 		g := gen.New(lr, w)
 		if li%2 == 0 {
 			g.CaseVariantNodes()
